@@ -86,7 +86,7 @@ def run(ctx):
     leaks = [b for b in fv["bad"] if any(it.get("diag") == "file-descriptors-leaked" for it in b.get("items", []))]
     if leaks:
         H.report(ctx, leaks, lambda i: {"fdcheck": "session cases in one process"}, ftrace)
-        H.write_evidence(ctx, LEVEL, {"evaluations": len(fdcases), "distinct_nontrivial": len(fdcases), "rule": "descriptor check", "samples": []}, L.ASSUME, len(leaks))
+        H.write_evidence(ctx, LEVEL, {"evaluations": len(fdcases), "distinct_nontrivial": len(fdcases), "rule": "descriptor check: session cases replayed in one process with the collector off", "samples": fdcases[:1]}, L.ASSUME, len(leaks))
         return 1
     return run_logical(
         ctx, LEVEL, [("C10Model.tla", "C10_thorough.cfg" if thorough else "C10_quick.cfg")],
